@@ -33,7 +33,7 @@ import (
 // appending to it will not modify the elements of vs after those kept.
 func Partition[T any](vs []T, keep func(T) bool) []T {
 	if len(vs) == 0 {
-		return vs
+		return vs[:0:0] // clip, as for every other result
 	}
 
 	// Invariant: Everything to the left of i is kept.
